@@ -679,11 +679,76 @@ def main_part(ctx, quick, rng, runner, exe, env):
             ctx.violation('buildFileName:short-name-read-without-prefix' if len(name) <= 2 else 'buildFileName:container-prefix',
                           'with container %r and prefix %r, the file %r is written but cannot be reloaded under the same name' % (US(c[1]), US(c[2]), name),
                           {'container': US(c[1]), 'prefix': US(c[2]), 'name': name}); found_input = True
+    found_input = grid_formats(ctx, quick, rng, exe, env) or found_input
     ctx.cov['rule'] = ('case = (class, construction recipe through the public API); evaluations = recipes run through dumpToNF/createFromNF/dumpToNF on the '
                        'implementation, each also parsed / printed / reloaded by the extracted model; distinct = distinct recipe text')
     ctx.cov['modelled_classes'] = [c.name for c in CLASSES if c.modelled]
     ctx.cov['unmodelled_classes'] = [c.name for c in CLASSES if not c.modelled]
     return found_input
+
+def grid_formats(ctx, quick, rng, exe, env):
+    """grid exchange formats that are both written and read (GridZycor, GridIfpEn): geometry and values on the implementation"""
+    found = False
+    cases = []
+    n = 12 if quick else 150
+    for k in range(2 * n):
+        fmt = k % 2
+        ndim = 2 if fmt == 0 else rng.choice([2, 2, 3])
+        nx = [rng.choice([2, 3, 4, 5]) for _ in range(ndim)]
+        if rng.random() < .1: nx[rng.randrange(ndim)] = 1
+        nech = 1
+        for v in nx: nech *= v
+        dx = [Fraction(rng.randint(1, 40), 4) for _ in range(ndim)]
+        x0 = [Fraction(rng.randint(-400, 400), 4) for _ in range(ndim)]
+        if fmt == 1 and rng.random() < .5: dx[-1] = Fraction(1) if ndim == 3 else dx[-1]; x0[-1] = Fraction(0) if ndim == 3 else x0[-1]
+        ang = [Fraction(0)] * ndim
+        if fmt == 1 and rng.random() < .3: ang[0] = Fraction(rng.choice([30, 45, 10]))
+        ncol = 1 if rng.random() < .7 else 2
+        cols = [[None if rng.random() < .1 else Fraction(rng.choice([rng.randint(-50, 50), rng.randint(-5000, 5000)]), rng.choice([1, 4, 8])) for _ in range(nech)] for _ in range(ncol)]
+        cases.append([4, fmt, nx, [D(v) for v in dx], [D(v) for v in x0], [D(v) for v in ang], [[D(v) for v in c] for c in cols]])
+    res = run_impl_all(ctx, exe, 'p5', cases, env)
+    def close(a, b, tol):
+        if a is None or b is None: return a is None and b is None
+        return abs(a - b) <= tol * max(1, abs(a), abs(b))
+    for c, r in zip(cases, res):
+        fmt = c[1]; name = 'GridZycor' if fmt == 0 else 'GridIfpEn'
+        ctx.count(sx_str(c)); ctx.dist('%s:ndim%d' % (name, len(c[2])))
+        nx = c[2]; dx = [undy(v) for v in c[3]]; x0 = [undy(v) for v in c[4]]; ang = [undy(v) for v in c[5]]
+        cols = [[undy(v) for v in col] for col in c[6]]
+        why = []
+        if r is None or (r and r[0] in (-990, -997, -995)): why.append(('crash', 'the process crashes or throws (%r)' % (r,)))
+        elif not r[0]: why.append(('write-refused', 'the grid cannot be written'))
+        elif not r[1]: why.append(('read-fails', 'the file just written cannot be read'))
+        else:
+            gnx, gdx, gx0, gang, gcols = r[2], [undy(v) for v in r[3]], [undy(v) for v in r[4]], [undy(v) for v in r[5]], [[undy(v) for v in col] for col in r[6]]
+            nd = len(nx)
+            if len(gnx) != nd: why.append(('dimension', 'a %d-D grid comes back as a %d-D grid %r' % (nd, len(gnx), gnx)))
+            if gnx[:nd] != nx: why.append(('nx', 'number of nodes %r comes back as %r' % (nx, gnx)))
+            for k in range(min(nd, len(gdx))):
+                if nx[k] > 1 and not close(gdx[k], dx[k], 1e-5): why.append(('mesh', 'mesh %r along direction %d comes back as %r' % (float(dx[k]), k + 1, gdx[k] and float(gdx[k]))))
+                if not close(gx0[k], x0[k], 1e-5): why.append(('origin', 'origin %r along direction %d comes back as %r' % (float(x0[k]), k + 1, gx0[k] and float(gx0[k]))))
+                if nx[k] == 1 and (gdx[k] is None): why.append(('single-node', 'a direction with a single node gives an undefined mesh'))
+            if gang and not close(gang[0], ang[0], 1e-5): why.append(('angle', 'rotation angle %r comes back as %r' % (float(ang[0]), float(gang[0]))))
+            if len(gcols) != len(cols): why.append(('variables', '%d variable(s) written, %d read' % (len(cols), len(gcols))))
+            else:
+                for j, (a, b) in enumerate(zip(cols, gcols)):
+                    bad = [i for i in range(min(len(a), len(b))) if not close(a[i], b[i], 2e-5)]
+                    if len(a) != len(b) or bad:
+                        i = bad[0] if bad else 0
+                        why.append(('values', 'variable %d, node %d: %r written, %r read' % (j + 1, i, a[i] if a[i] is None else float(a[i]), b[i] if i < len(b) and b[i] is None else (float(b[i]) if i < len(b) else None))))
+        if not why: continue
+        kinds = [w[0] for w in why]
+        if fmt == 1:
+            if 'values' in kinds and len(cols) > 1: key = 'GridIfpEn:several-variables-mixed'
+            elif 'values' in kinds and any(v == 3 for col in cols for v in col): key = 'GridIfpEn:value-3-read-as-undefined'
+            elif 'dimension' in kinds and len(nx) == 2 and kinds == ['dimension']: key = 'GridIfpEn:2d-grid-read-as-3d'
+            elif ('mesh' in kinds or 'origin' in kinds) and len(nx) == 3: key = 'GridIfpEn:vertical-origin-and-mesh-not-written'
+            else: key = 'GridIfpEn:' + kinds[-1]
+        else:
+            key = 'GridZycor:' + ('single-node-direction' if 1 in nx else kinds[-1])
+        ctx.violation(key, '%s: %s' % (name, '; '.join(w[1] for w in why[:3])), {'format': name, 'case': sx_str(c), 'how': 'harness/C08.cpp operation 4: write the grid with the format class, read it back'})
+        found = True
+    return found
 
 def trace_mismatch(tw, tr):
     """flattened sequences of value types written / read (a vector of n counts as n values)"""
